@@ -16,7 +16,7 @@ import ast
 
 from ..index import AnchorMissing, Unrecognised
 from ..cfg import CFG
-from ..astutil import u, body_walk, local_env, func_calls, walk_local, single_return_expr, inline_locals
+from ..astutil import linear_body, u, body_walk, local_env, func_calls, walk_local, single_return_expr, inline_locals
 from ..pend import edge_facts
 from .. import sym
 
@@ -152,7 +152,7 @@ def r3_reducer_pairing(ctx):
     ok = ok and augs == sorted([f"{a}[:{b}.size] += {b}", f"{b}[:{a}.size] += {a}"])
     ctx.ob(br.where, "bincount reducer adds the shorter count vector into the prefix of the longer one and returns the longer", ok, str(augs), key="C11-R3|bincount")
     mn = ix.func(R, "mean")
-    rets = [n for n in mn.node.body if isinstance(n, ast.Return)]
+    rets = [n for n in linear_body(mn.node) if isinstance(n, ast.Return)]
     env = local_env(mn.node)
     ok = bool(rets) and sym.canon(rets[-1].value) == sym.canon(sym.parse_expr("t[:-1] / t[-1]")) and sym.same(env.get("t"), f"sum_and_n({mn.params[0]}, axis={mn.params[1]})")
     ctx.ob(mn.where, "streamed mean = summed sums / summed counts", ok, "", key="C11-R3|mean")
@@ -243,11 +243,11 @@ def r5_group_join(ctx):
     ok = any("streamable(join_groupbys)" in d for d in gb.decorators)
     ctx.ob(gb.where, "streamed group-by joins the per-chunk groups with join_groupbys", ok, "", key="C11-R5|decorator")
     env = {}
-    for s in gb.node.body:
+    for s in linear_body(gb.node):
         if isinstance(s, ast.Assign) and isinstance(s.targets[0], ast.Name):
             env.setdefault(s.targets[0].id, []).append(s.value)
     ok = len(env.get("changes", [])) == 2 and sym.same(env["changes"][0], "get_changes(keys)") and sym.same(env["changes"][1], f"np.append(np.insert(changes, 0, 0), len({gb.params[0]}))")
-    rets = [n for n in gb.node.body if isinstance(n, ast.Return)]
+    rets = [n for n in linear_body(gb.node) if isinstance(n, ast.Return)]
     ok = ok and bool(rets) and sym.canon(rets[-1].value) == sym.canon(sym.parse_expr(
         f"grouped_stream(((key(keys[start]), {gb.params[0]}[start:end]) for start, end in zip(changes[:-1], changes[1:])), {gb.params[1]})"))
     ctx.ob(gb.where, "groups are the maximal runs between consecutive change points, in order, covering [0, len)", ok, "", key="C11-R5|runs")
